@@ -138,10 +138,46 @@ def insertion_sites(f, simplex_helpers, face_helpers):
     return out
 
 
+_ALIASES = {}
+
+
+def local_aliases(f):
+    """name -> base name for locals bound exactly once to another name or to frozenset/set/list/tuple of one
+    (`simplex = frozenset(members)` denotes the same node set as `members`)."""
+    counts, vals = {}, {}
+    for st in own_statements(f.node):
+        tgts = []
+        if isinstance(st, ast.Assign):
+            for t in st.targets:
+                tgts += [n.id for n in ast.walk(t) if isinstance(n, ast.Name)]
+            if len(st.targets) == 1 and isinstance(st.targets[0], ast.Name):
+                vals[st.targets[0].id] = st.value
+        elif isinstance(st, (ast.For, ast.AugAssign)):
+            tgts += [n.id for n in ast.walk(st.target) if isinstance(n, ast.Name)]
+        for t in tgts:
+            counts[t] = counts.get(t, 0) + 1
+    out = {}
+    params = set(f.all_params)
+    for name, v in vals.items():
+        if counts.get(name) == 1 and name not in params:
+            saved = dict(_ALIASES)
+            _ALIASES.clear()
+            b = base_name(v)
+            _ALIASES.update(saved)
+            if b is not None and b != name:
+                out[name] = b
+    return out
+
+
 def base_name(expr):
-    """members / frozenset(members) / set(members) -> 'members'"""
+    """members / frozenset(members) / set(members) -> 'members' (through single-assignment local aliases)"""
     if isinstance(expr, ast.Name):
-        return expr.id
+        seen = set()
+        n = expr.id
+        while n in _ALIASES and n not in seen:
+            seen.add(n)
+            n = _ALIASES[n]
+        return n
     if isinstance(expr, ast.Call) and isinstance(expr.func, ast.Name) and expr.func.id in ("frozenset", "set", "list", "tuple") and expr.args:
         return base_name(expr.args[0])
     return None
@@ -180,6 +216,8 @@ def check_method(repo, eng, res, f, simplex_helpers, face_helpers):
     cfg = CFG(f.node)
     params = set(f.all_params)
     n = 0
+    _ALIASES.clear()
+    _ALIASES.update(local_aliases(f))
     for st, kind, val, key, call in sites:
         n += 1
         vname = base_name(val) if val is not None else None
@@ -238,6 +276,7 @@ def check_method(repo, eng, res, f, simplex_helpers, face_helpers):
             check_bound_guard(res, cfg, f, st, vname, where)
     if "max_order" in params:
         check_bound_producers(res, f)
+    _ALIASES.clear()
     return n
 
 
